@@ -29,9 +29,9 @@ import vlib
 PID = "C20"
 
 PARAMS = {
-    "quick":    dict(cfg="MC_Codec.cfg", mc_timeout=900, rnd_amt=1500, rnd_batch=1500, chunk=25000),
-    "thorough": dict(cfg="MC_Codec_thorough.cfg", mc_timeout=2400, rnd_amt=20000, rnd_batch=20000,
-                     chunk=40000),
+    "quick":    dict(cfg="MC_Codec.cfg", mc_timeout=900, rnd_amt=10000, rnd_batch=10000, chunk=25000),
+    "thorough": dict(cfg="MC_Codec_thorough.cfg", mc_timeout=2400, rnd_amt=100000, rnd_batch=100000,
+                     chunk=50000),
 }
 
 CLASS_DEV = {
